@@ -174,4 +174,20 @@ theorem stalled_once (db db' : DB) (hh : Heights db) (hh' : Heights db') (fsb : 
   have := hlater l hlast
   omega
 
+/-- **a block at or below the LIB height is never pending again** (any state of the invariant): the consumer's pending
+    chain lies strictly above the LIB. Since the LIB height never decreases (`C04.lib_height_never_decreases`) and an
+    accepted Undo is the newest *pending* block (`undo_is_newest_pending`), a block announced irreversible — it is at
+    or below the LIB height from then on — is never delivered as Undo later, and never as New either
+    (`C04.history_cursor_lib_not_above_block`: New events are strictly above the LIB). -/
+theorem pending_above_lib (s : FState) (P : List Id) (hI : Inv s P) :
+    ∀ x ∈ P, ∀ e, s.db.find x = some e → s.db.libRef.num < e.blk.num :=
+  heights_path s.db hI.heights s.db.libRef.id s.db.libRef.num P hI.path hI.heights.2.1
+
+/-- the LIB block itself, and anything stored at or below its height, is not on the pending chain -/
+theorem at_or_below_lib_not_pending (s : FState) (P : List Id) (hI : Inv s P) (x : Id) (e : Entry)
+    (hf : s.db.find x = some e) (hle : e.blk.num ≤ s.db.libRef.num) : x ∉ P := by
+  intro hx
+  have := pending_above_lib s P hI x hx e hf
+  omega
+
 end BstreamVerif.Props.C02
